@@ -1150,12 +1150,13 @@ def translate(fns, order, point_fns=None, iter_fns=None, with_assertions=False, 
     """fns: name -> ast.FunctionDef of class AnsiString; point_fns: the same for `_AnsiSettingPoint`;
     order: entries, callees first — a method name, or a dict(py=…, lean=…, after=…, entry=[(name, type)…])
     for a suffix, or dict(py=…, point=True, types={param: type}) for a point method -> Lean source"""
-    out, sigs = [], {x: True for x in have}
+    out, sigs, names = [], {x: True for x in have}, []
     for spec in order:
         if isinstance(spec, str):
             spec = dict(py=spec)
         nm = spec['py']
         ln = spec.get('lean') or lean_name(nm)
+        names.append(ln)
         if spec.get('point'):
             fn = (point_fns or {}).get(nm)
             doc = '`_AnsiSettingPoint.%s`, statement by statement (the parameter `settings` is a list here)' % nm
@@ -1167,9 +1168,9 @@ def translate(fns, order, point_fns=None, iter_fns=None, with_assertions=False, 
                 ps = ' '.join('(%s : %s)' % (mangle(n), LEAN_T[t]) for n, t, _ in sig.params)
                 out.append('/-- %s -/\ndef %s (p : Point) %s : Point :=\n%s\ndef %sOk : Bool := true\n' % (doc, ln, ps, body, ln))
                 sigs[nm] = sig
-            except Unsupported as e:
+            except Exception as e:   # noqa: anything the translator cannot do, whatever the reason
                 out.append('/-- %s — NOT TRANSLATED (%s) -/\ndef %s (p : Point) %s : Point := p\ndef %sOk : Bool := false\n'
-                           % (doc, str(e).replace('-/', ''), ln, ' '.join('(_%s : %s)' % (n, LEAN_T[t]) for n, t in spec['types'].items()), ln))
+                           % (doc, (type(e).__name__ + ': ' + str(e)).replace('-/', '').replace('\n', ' ')[:300], ln, ' '.join('(_%s : %s)' % (n, LEAN_T[t]) for n, t in spec['types'].items()), ln))
             continue
         if spec.get('iter'):
             fn = (iter_fns or {}).get(nm)
@@ -1181,9 +1182,9 @@ def translate(fns, order, point_fns=None, iter_fns=None, with_assertions=False, 
                 m.fn, m.sigs, m.aliased, m.pending, m.nread, m.sig, m.join = fn, dict(sigs), False, [], 0, None, False
                 out.append(m.lean_iter(ln, doc, spec['after_target'], spec['entry']))
                 sigs[ln] = True
-            except Unsupported as e:
+            except Exception as e:   # noqa
                 out.append('/-- %s — NOT TRANSLATED (%s) -/\ndef %s %s : Except Exc (List Setting) := .error .outside\ndef %sOk : Bool := false\n'
-                           % (doc, str(e).replace('-/', ''), ln, ' '.join('(_%s : %s)' % (n, LEAN_T[t]) for n, t in spec['entry']), ln))
+                           % (doc, (type(e).__name__ + ': ' + str(e)).replace('-/', '').replace('\n', ' ')[:300], ln, ' '.join('(_%s : %s)' % (n, LEAN_T[t]) for n, t in spec['entry']), ln))
             continue
         fn = fns.get(nm)
         doc = '`AnsiString.%s`, statement by statement' % nm
@@ -1205,15 +1206,15 @@ def translate(fns, order, point_fns=None, iter_fns=None, with_assertions=False, 
                 m = M(fn, dict(sigs))
                 out.append(m.lean(ln, doc))
                 sigs[nm] = m.sig
-        except Unsupported as e:
+        except Exception as e:   # noqa
             ps = ''
             try:
                 if spec.get('after') or spec.get('after_store'):
                     ps = ' '.join('(_%s : %s)' % (n, LEAN_T[t]) for n, t in spec['entry'])
                 else:
                     ps = ' '.join('(_%s : %s)' % (n, LEAN_T[t]) for n, t, _ in Sig(fn).params) if fn is not None else ''
-            except Unsupported:
+            except Exception:   # noqa
                 ps = ''
             out.append('/-- %s — NOT TRANSLATED (%s) -/\ndef %s (_self : AStr) %s : Except Exc AStr := .error .outside\ndef %sOk : Bool := false\n'
-                       % (doc, str(e).replace('-/', ''), ln, ps, ln))
-    return '\n'.join(out)
+                       % (doc, (type(e).__name__ + ': ' + str(e)).replace('-/', '').replace('\n', ' ')[:300], ln, ps, ln))
+    return list(zip(names, out))
